@@ -87,7 +87,11 @@ impl TcpStream {
 
             let syn = Protocol::Tcp(Segment::Syn(Syn { ack }));
             if !is_same(pair.local, pair.remote) {
-                world.send_message(pair.local, pair.remote, syn)?;
+                if let Err(e) = world.send_message(pair.local, pair.remote, syn) {
+                    // Nothing was sent: release the half-open socket again.
+                    world.current_host_mut().tcp.reset_stream(pair);
+                    return Err(e);
+                }
             } else {
                 send_loopback(pair.local, pair.remote, syn);
             };
@@ -95,9 +99,16 @@ impl TcpStream {
             Ok::<_, Error>((pair, rx, bidi))
         })?;
 
+        // Until the handshake completes the socket entry (and with it the
+        // ephemeral port) belongs to this future: release it if the connect
+        // is refused or the future is dropped before completing.
+        let mut half_open = HalfOpen { pair, armed: true };
+
         syn_ack.await.map_err(|_| {
             io::Error::new(io::ErrorKind::ConnectionRefused, pair.remote.to_string())
         })?;
+
+        half_open.armed = false;
 
         tracing::trace!(target: TRACING_TARGET, src = ?pair.remote, dst = ?pair.local, protocol = %"TCP SYN-ACK", "Recv");
 
@@ -191,6 +202,20 @@ impl TcpStream {
     /// available.
     pub fn poll_peek(&mut self, cx: &mut Context<'_>, buf: &mut ReadBuf) -> Poll<Result<usize>> {
         self.read_half.poll_peek(cx, buf)
+    }
+}
+
+/// Removes the stream socket of a `connect` that did not complete.
+struct HalfOpen {
+    pair: SocketPair,
+    armed: bool,
+}
+
+impl Drop for HalfOpen {
+    fn drop(&mut self) {
+        if self.armed {
+            World::current_if_set(|world| world.current_host_mut().tcp.reset_stream(self.pair));
+        }
     }
 }
 
